@@ -1158,6 +1158,16 @@ func enumerateCrashPoints(w *Workload, lt *lifetime, model *Model, exists map[st
 			if len(vs) > 0 {
 				allClean = false
 			}
+			// a history is not continued from a crash point that leaves any bucket
+			// unreadable - also one that the in-flight request was just creating (not
+			// judged by C03, which speaks of buckets that existed before the crash):
+			// the known half-created year file would otherwise be carried into the next
+			// lifetime and show up there under windows that have nothing to do with it
+			for _, b := range buckets {
+				if rc.QErr[b.Key()] != nil {
+					allClean = false
+				}
+			}
 			for _, v := range vs {
 				v.Replay["workload"] = w.Describe()
 				res.AddViolation(v)
